@@ -36,13 +36,14 @@ def dagWeightFunction (g : Graph) (ignore : List Edge) : List (Edge × Int) :=
   (g.edges.filter fun e => !ignore.contains e).map fun e => (e, (1 : Int))
 
 /-- the demands `compute_max_edge_antichain` puts on the edges: `int(u != source and v != sink)`,
-overridden by `weight_function.get((u, v), 0)` when `weight_function` is truthy (not `None`, not `{}`) -/
+overridden by `weight_function.get((u, v), 0)` when `weight_function is not None` (an empty dictionary
+means weight 0 everywhere, since fix 820f3e3) -/
 def antichainDemands (s : STGraph) (wf : Option (List (Edge × Int))) : List (Edge × Int) :=
   s.g.edges.map fun e =>
     let dflt : Int := if e.1 ≠ s.source ∧ e.2 ≠ s.sink then 1 else 0
     match wf with
     | none => (e, dflt)
-    | some w => if w.isEmpty then (e, dflt) else (e, lookupD w e 0)
+    | some w => (e, lookupD w e 0)
 
 /-- demands of `stDAG.get_width(edges_to_ignore)` -/
 def dagWidthDemands (s : STGraph) (ignore : List Edge) : List (Edge × Int) :=
